@@ -284,7 +284,7 @@ func cmdRun(args []string) int {
 	fs := flag.NewFlagSet("run", flag.ExitOnError)
 	pkg := fs.String("pkg", "", "package dir relative to repo")
 	fn := fs.String("func", "", "harness function")
-	workers := fs.Int("workers", 16, "workers")
+	workers := fs.Int("workers", 8, "workers")
 	maxPaths := fs.Int("max-paths", 100000, "path budget")
 	trace := fs.Bool("trace", false, "trace instructions")
 	unwind := fs.Int("unwind", 64, "unwinding budget")
@@ -316,8 +316,8 @@ func (m *multiFlag) String() string     { return strings.Join(*m, ",") }
 func (m *multiFlag) Set(s string) error { *m = append(*m, s); return nil }
 
 func printResult(res *HarnessResult) {
-	fmt.Printf("harness %s: paths=%d completed=%d ends=%v decisions=%d forced=%d steps=%d obligations=%d discharged=%d (trivial %d) unknown=%d queries=%d solver=%.1fs wall=%.1fs budget=%v maxdepth=%d\n",
-		res.Harness, res.Paths, res.Completed, res.EndKinds, res.Decisions, res.Forced, res.Steps, res.Obligations, res.Discharged, res.Trivial, res.Unknown, res.Queries, res.SolverTime.Seconds(), res.Wall.Seconds(), res.Budget, res.MaxDepth)
+	fmt.Printf("harness %s: paths=%d completed=%d ends=%v decisions=%d forced=%d steps=%d obligations=%d discharged=%d (trivial %d) unknown=%d queries=%d solver=%.1fs wall=%.1fs budget=%v maxdepth=%d slow(>1s)=%d maxquery=%.1fs\n",
+		res.Harness, res.Paths, res.Completed, res.EndKinds, res.Decisions, res.Forced, res.Steps, res.Obligations, res.Discharged, res.Trivial, res.Unknown, res.Queries, res.SolverTime.Seconds(), res.Wall.Seconds(), res.Budget, res.MaxDepth, res.SlowQueries, res.MaxQuery.Seconds())
 	fmt.Printf("  reached: %v\n", res.Reached)
 	for msg, n := range res.EngineErrors {
 		fmt.Printf("  ENGINE-ERROR ×%d: %s\n", n, msg)
@@ -332,7 +332,11 @@ func printResult(res *HarnessResult) {
 		if seen[k] <= 3 {
 			fmt.Printf("  violation %s label=%q shape=%s msg=%s\n", v.Kind, v.Label, v.Shape, v.Msg)
 			var ins []string
-			for _, in := range v.Inputs {
+			for i, in := range v.Inputs {
+				if i >= 40 {
+					ins = append(ins, "…")
+					break
+				}
 				ins = append(ins, fmt.Sprintf("%s=%d", in.Name, in.Val))
 			}
 			fmt.Printf("     inputs: %s\n", strings.Join(ins, " "))
@@ -436,7 +440,7 @@ func cmdCheck(args []string) int {
 	fs := flag.NewFlagSet("check", flag.ExitOnError)
 	prop := fs.String("prop", "", "property id")
 	tier := fs.String("tier", "quick", "quick|thorough")
-	workers := fs.Int("workers", 16, "workers")
+	workers := fs.Int("workers", 8, "workers")
 	only := fs.String("only", "", "run only harnesses whose name contains this")
 	noReplay := fs.Bool("no-replay", false, "skip native replay (development)")
 	fs.Parse(args)
